@@ -148,6 +148,29 @@ def off_curve(ex, ec):
     return {"off_curve_point_answered": False}
 
 
+@ob("C01", "off_curve_points_are_refused_by_the_multi_term_entry_points", quick=[dict(ec="ec13_11", where=w) for w in (0, 1)], thorough=[dict(ec=c, where=w) for c in CURVES_T for w in (0, 1)],
+    bound="double_mult_var and multi_mult_var with two terms, one of them (first or second) a symbolic pair (x in -p..2p, y in 0..p-1) that is not a point of the curve, the other the generator; "
+          "both scalars symbolic over -n..2n, so zero, the order and its multiples are included: always refused",
+    functions=["btclib.curves.curve.multi_mult_var", "btclib.curves.curve.double_mult_var"], timeout=600, min_ok=0)
+def off_curve_multi(ex, ec, where):
+    g = toy.group(ec)
+    ec = toy.curve(ec)
+    x = ex.int("x", -g.p, 2 * g.p)
+    y = ex.int("y", 0, g.p - 1)
+    ex.assume(snot(sor(y == 0, g.idx_of_aff(x, y) >= 0)))
+    u = ex.int("u", -ec.n, 2 * ec.n)
+    v = ex.int("v", -ec.n, 2 * ec.n)
+    pts = [(x, y), ec.G] if where == 0 else [ec.G, (x, y)]
+    claims = {}
+    for name, f in (("multi_mult_var", lambda: curve_mod.multi_mult_var([u, v], pts, ec)), ("double_mult_var", lambda: curve_mod.double_mult_var(u, pts[0], v, pts[1], ec))):
+        try:
+            f()
+            claims[name + "_answered_an_off_curve_point"] = False
+        except BTClibValueError:
+            claims[name + "_refused"] = True
+    return claims
+
+
 @ob("C01", "double_and_multi_mult", quick=[], thorough=[dict(ec="ec13_11", k=2)],
     bound="u_i in 0..n-1 symbolic, points = every tuple of elements of the group (case split by the solver); k = 2 terms (double_mult_var and multi_mult_var), thorough also 3 terms",
     functions=["btclib.curves.curve.double_mult_var", "btclib.curves.curve.multi_mult_var"], timeout=1500, weight=8, max_decisions=40000, max_paths=400000)
